@@ -29,6 +29,7 @@ use tokio::{
 use vh::util::*;
 
 const PAUSE_MS: u64 = 4;
+const BIG: usize = 70_000;
 const WATCHDOG: Duration = Duration::from_millis(2500);
 
 // ---------------------------------------------------------------------------------------------
@@ -39,6 +40,8 @@ fn sym_bytes(s: &str) -> Vec<u8> {
         "x" => b"x".to_vec(),
         "]" => b"]".to_vec(),
         ">" => b">".to_vec(),
+        // one symbol, many bytes: larger than any read buffer, TLS record or SSH packet
+        "X" => vec![b'y'; BIG],
         other => other.as_bytes().to_vec(),
     }
 }
@@ -519,7 +522,7 @@ fn body_syms(s: &str) -> Vec<String> {
     let inner = s.trim();
     let inner = inner.strip_prefix("<!--").and_then(|r| r.strip_suffix("-->"));
     match inner {
-        Some(b) => b.chars().map(|c| c.to_string()).collect(),
+        Some(b) => b.replace(&"y".repeat(BIG), "X").chars().map(|c| c.to_string()).collect(),
         None => vec![format!("?{s}")],
     }
 }
